@@ -254,7 +254,7 @@ def optAll {α : Type} : List (Option α) → Option (List α)
 /-- `all_variants(sequence)` (the whole generator, as a list) -/
 def allVariants (sp : Space) (s : Seq) : Except SpaceErr (List Seq) :=
   match sp.choicesSpan with
-  | none => .error (.crash "choices_span is None")
+  | none => .ok [s]      -- fully determined space: the only variant is the sequence itself
   | some _ =>
     match optAll (sp.multichoices.map (fun c => (variantsByDistance c s).map (fun vs => vs.map (fun v => (c.start, v))))) with
     | none => .error (.crash "KeyError: current segment not among the variants")
